@@ -1039,7 +1039,65 @@ mod wrapper {
                 Some(r) => r,
                 None => self.1.take().map(Ok).unwrap_or(Err(ClientError::ConnectionClosed)),
             };
-            Box::pin(std::future::ready(r))
+            // (an upstream is not ready at once: whoever else has something to do gets a turn first)
+            Box::pin(async move {
+                tokio::task::yield_now().await;
+                r
+            })
+        }
+    }
+
+    /// Two requests in flight at once on one wrapper (a multiplexing upstream, a caller that joins two futures): each
+    /// is signed on its own and each honest answer verifies against its own request.
+    pub fn case_pair(c: &mut Ctx, fam: &str, idx: u64) {
+        let mut rng = c.case_rng(fam, idx);
+        let keys = gen_key(&mut rng);
+        let out = Arc::new(Mutex::new(None));
+        let server = RefServer { key: keys.r.clone(), fault: "none", seed: c.seed ^ idx, out: out.clone() };
+        let mk = |l: String, id: u16| {
+            let mut qn = vec![l.len() as u8];
+            qn.extend_from_slice(l.as_bytes());
+            qn.extend_from_slice(b"\x04test\x00");
+            let mut mb = MessageBuilder::new_vec();
+            mb.header_mut().set_id(id);
+            let mut qb = mb.question();
+            qb.push((Name::<Vec<u8>>::from_octets(qn.clone()).unwrap(), Rtype::A)).unwrap();
+            (RequestMessage::new(qb.into_message()).unwrap(), qn)
+        };
+        let (rm1, q1) = mk(format!("p{}a", idx), rng.u16());
+        let (rm2, q2) = mk(format!("p{}b", idx), rng.u16());
+        let ex = json!({"alg": keys.r.alg.text(), "signing_len": keys.r.signing_len, "requests_in_flight": 2});
+        let rt_ = tokio::runtime::Builder::new_current_thread().enable_all().build().unwrap();
+        let lib_key = keys.lib.clone();
+        let res = ctx::catch(|| {
+            rt_.block_on(async move {
+                let conn = ctsig::Connection::new(lib_key, server);
+                let mut g1 = SendRequest::send_request(&conn, rm1);
+                let mut g2 = SendRequest::send_request(&conn, rm2);
+                let (r1, r2) = tokio::join!(g1.get_response(), g2.get_response());
+                (r1.map(|m| m.as_slice().to_vec()).map_err(|e| format!("{}", e)), r2.map(|m| m.as_slice().to_vec()).map_err(|e| format!("{}", e)))
+            })
+        });
+        c.eval(&("wrapper-pair", keys.r.alg.text()));
+        match res {
+            Err(pi) => c.violation(&format!("panic:{}", pi.site()), &format!("panic in the client-side TSIG wrapper with two requests in flight: {} at {}:{}", pi.msg, pi.file, pi.line), c.replay_of(fam, idx, ex)),
+            Ok((r1, r2)) => {
+                for (r, q) in [(r1, q1), (r2, q2)] {
+                    match r {
+                        Err(e) => {
+                            c.violation("wrapper:honest-response-refused:two-requests-in-flight", &format!("two requests in flight on one wrapper, both answered honestly: one is refused: {}", e), c.replay_of(fam, idx, ex));
+                            return;
+                        }
+                        Ok(m) => {
+                            if w::parse_message(&m).map(|pm| pm.questions.first().map(|x| w::lower(&x.name)) != Some(w::lower(&q))).unwrap_or(true) {
+                                c.violation("wrapper:response-to-other-request", "with two requests in flight a caller got the other request's answer", c.replay_of(fam, idx, ex));
+                                return;
+                            }
+                        }
+                    }
+                }
+                c.count("wrapper_pairs_in_flight_verified", 1);
+            }
         }
     }
 
@@ -1721,6 +1779,9 @@ pub fn run(c: &mut Ctx) {
         }
         ctx::slot_write(idx, &format!("{}|case", fam), &[]);
         wrapper::case(c, fam, idx);
+        if idx % 4 == 0 {
+            wrapper::case_pair(c, fam, idx);
+        }
     }
     let fam = "middleware";
     let total = c.total(4_000, 200_000);
@@ -1750,7 +1811,7 @@ pub fn run(c: &mut Ctx) {
         sequence(c, fam, idx, &mut log);
     }
     if !c.replaying() {
-        for k in ["macs_compared", "honest_requests_verified", "honest_responses_verified", "requests_outside_window_rejected", "responses_outside_window_rejected", "badtime_responses_checked", "request_tampers", "response_tampers", "lib_server_sequences", "ref_server_sequences", "sequences_of_100_or_more", "unsigned_runs_cut_off", "poisoned_sequences_rejected", "tampered_but_authentic_by_rfc", "wrapper_honest_exchanges", "wrapper_bad_responses_refused", "wrapper_requests_verified_by_reference", "wrapper_refusals_followed_by_another_refusal", "middleware_authentic_requests", "middleware_responses_verified_by_reference", "middleware_subsequent_messages_verified", "middleware_sequences", "middleware_unsigned_passed_through", "middleware_bad_requests_answered_with_error", "middleware_badtime_responses_verified", "middleware_truncated_responses", "middleware_brim_full_responses_signed"] {
+        for k in ["macs_compared", "honest_requests_verified", "honest_responses_verified", "requests_outside_window_rejected", "responses_outside_window_rejected", "badtime_responses_checked", "request_tampers", "response_tampers", "lib_server_sequences", "ref_server_sequences", "sequences_of_100_or_more", "unsigned_runs_cut_off", "poisoned_sequences_rejected", "tampered_but_authentic_by_rfc", "wrapper_honest_exchanges", "wrapper_bad_responses_refused", "wrapper_requests_verified_by_reference", "wrapper_refusals_followed_by_another_refusal", "wrapper_pairs_in_flight_verified", "middleware_authentic_requests", "middleware_responses_verified_by_reference", "middleware_subsequent_messages_verified", "middleware_sequences", "middleware_unsigned_passed_through", "middleware_bad_requests_answered_with_error", "middleware_badtime_responses_verified", "middleware_truncated_responses", "middleware_brim_full_responses_signed"] {
             c.floor(k, 3);
         }
     }
